@@ -26,7 +26,11 @@ RawSurf == IF SurfMode = 0 THEN {} ELSE Surfaces({RawU}, {RawV}, {3}, BOOLEAN, S
 HD3 == <<3, MkClamped(3, <<Half>>, <<1>>)>>
 HD2 == <<2, MkClamped(2, <<R(1,4), R(3,4)>>, <<1, 1>>)>>
 HodoOnly == IF SurfMode = 0 THEN {} ELSE Surfaces({HD3}, {HD2}, {3}, {FALSE}, Seed) \cup Surfaces({HD2}, {HD3}, {3}, {FALSE}, Seed)
-Shapes == CurveSet \cup SurfSet \cup RawSurf \cup HodoOnly
+\* three distinct interior knots, single and repeated (bisection meets parameters equal to the upper knot of the tested interval)
+Dense == {<<1, MkClamped(1, <<R(1,4), Half, R(3,4)>>, <<1, 1, 1>>)>>, <<2, MkClamped(2, <<R(1,4), Half, R(3,4)>>, <<1, 1, 1>>)>>,
+          <<2, MkClamped(2, <<R(1,4), Half>>, <<1, 2>>)>>, <<3, MkClamped(3, <<R(1,4), Half, R(3,4)>>, <<3, 1, 2>>)>>}
+DenseSet == Curves(Dense, {2}, {FALSE}, Seed)
+Shapes == CurveSet \cup SurfSet \cup RawSurf \cup HodoOnly \cup DenseSet
 Init == sh \in Shapes /\ out = [op |-> "init"]
 
 MaxDeg == IF PDim(sh) = 1 THEN sh.deg[1] ELSE IMax(sh.deg[1], sh.deg[2])
